@@ -1,9 +1,9 @@
 package main
 
 import (
+	"fmt"
 	"os"
 	"runtime"
-	"fmt"
 	"sort"
 	"strconv"
 	"strings"
@@ -18,9 +18,9 @@ import (
 
 type server struct {
 	seenPanics int
-	h    *srvkit.Harness
-	mem  *imapmemserver.Server
-	user *imapmemserver.User
+	h          *srvkit.Harness
+	mem        *imapmemserver.Server
+	user       *imapmemserver.User
 }
 
 // newServer builds a fresh imapserver.Server whose sessions come from a fresh imapmemserver
@@ -39,7 +39,7 @@ func newServer(preCreate ...string) *server {
 			return s.mem.NewSession(), nil, nil
 		},
 		InsecureAuth: true,
-		Caps: imap.CapSet{imap.CapIMAP4rev1: {}, imap.CapIMAP4rev2: {}, imap.CapLiteralPlus: {}},
+		Caps:         imap.CapSet{imap.CapIMAP4rev1: {}, imap.CapIMAP4rev2: {}, imap.CapLiteralPlus: {}},
 	}
 	s.h = srvkit.NewHarness(opts)
 	return s
@@ -92,14 +92,14 @@ func (s *server) dial(prefix string) *conn {
 }
 
 type reply struct {
-	tag     string
-	cmd     string
-	resps   []srvkit.Resp // untagged + tagged, in order
-	status  string        // OK / NO / BAD of the tagged reply ("" when there is none)
-	text    string        // text of the tagged reply after the status word
-	problem string        // non-empty when the framing clause is violated: closed / no-tagged / ...
-	panicLog string       // the server's panic report, when the command made it panic
-	raw     string
+	tag      string
+	cmd      string
+	resps    []srvkit.Resp // untagged + tagged, in order
+	status   string        // OK / NO / BAD of the tagged reply ("" when there is none)
+	text     string        // text of the tagged reply after the status word
+	problem  string        // non-empty when the framing clause is violated: closed / no-tagged / ...
+	panicLog string        // the server's panic report, when the command made it panic
+	raw      string
 }
 
 // do sends one command (the tag is prepended; the command may contain non-synchronising
